@@ -211,4 +211,5 @@ func runC02(ctx *Ctx) {
 		c02Arith(ctx, a, b)
 	}
 	runC02More(ctx)
+	c02NonNFC(ctx)
 }
